@@ -717,6 +717,16 @@ Qed.
 Lemma reg_inv_fuse ord k (s : store) : reg_inv ord (k, s) -> fuse s = None.
 Proof. destruct k; intros (_ & Hf & _); exact Hf. Qed.
 
+Lemma debug_ok ord k (s : store) : reg_inv ord (k, s) ->
+  forallb (fun i => bool_decide (i < length (smap s))) (heap s) = true.
+Proof.
+  intros Hinv. assert (HWF : WF s) by (destruct k; apply Hinv).
+  apply forallb_forall. intros i Hi. apply bool_decide_eq_true.
+  apply elem_of_list_In, elem_of_list_lookup in Hi as [p Hp].
+  destruct HWF as (Hm & (Hh & Hq & H1 & H2) & _).
+  pose proof (H1 _ _ Hp) as Hqi. apply lookup_lt_Some in Hqi. lia.
+Qed.
+
 Lemma step1_main ord (m : machine) (o : op) :
   inv_m ord m -> total_ticks m = 0 -> adm keq alloc_limit m o -> (ord = true -> no_forget o) ->
   post ord (costed o) (cost_bound m o) (stp1 None m o).
@@ -725,7 +735,7 @@ Proof.
   destruct o as [k r|k r c|k r l|k r l h|r i p|r i p|r i p|r i p|r i g|r i|r sd|r sd u|r sd
                 |r sd f|r i|r i|r i u|r|r|r f|r a script e|r a script e|r a script e
                 |r a script e|r a script e|r|r sd|r|r l h|dst src|r|src dst|src dst|ra rb|src k dst
-                |k r l|r n|r n|r|r|n o];
+                |k r l|r n|r n|r|r|r|n o];
     try destruct sd;
     cbn [Machine.step1 closures_ok limits_ok no_fuse no_forget cost_bound costed] in *.
   all: try (destruct (getreg m r) as [[k s]|] eqn:Hr; [|by apply post_same];
@@ -910,6 +920,7 @@ Proof.
     + apply post_set; [done|done|done|done|cost_lin Hr].
   - (* OShrink *) apply post_set; [done|done|by apply (reg_inv_set_cap ord k s)|done|cost_lin Hr].
   - (* OCapacity *) by apply post_same.
+  - (* ODebug *) rewrite (debug_ok ord k s Hinv). by apply post_same.
   - (* OFuse *) destruct Hnf.
 Qed.
 
